@@ -1,6 +1,7 @@
 package main
 
 import (
+	"fmt"
 	"go/token"
 	"go/types"
 	"strings"
@@ -312,3 +313,5 @@ func reachableStatic(roots []*ssa.Function, keep func(*ssa.Function) bool) map[*
 	}
 	return seen
 }
+
+func sprint(n int) string { return fmt.Sprint(n) }
